@@ -29,9 +29,15 @@ EvalFails(e) ==
   IN IF ref # po THEN "HARNESS: the generated tokens do not denote the generated tree; "
      ELSE IF ~e.lexok THEN ""                       \* the lexer did not deliver the intended tokens: C13's subject
      ELSE IF e.set # "ok" THEN "a well-formed expression was not accepted; "
-     ELSE LET w == Wire(e.nodes, e.root, 0) IN
-          F(e.calls = w[1], "operator/function applications differ from a direct evaluation of the syntax tree (precedence, associativity, operand or argument order)")
-       \o (IF e.calls # w[1] THEN ""
+     ELSE LET w == Wire(e.nodes, e.root, 0)
+              \* the recorder made the k-th application report an error (with or without a value next to it): the evaluation
+              \* stops there and fails
+              k == IF "failat" \in DOMAIN e /\ e.failat >= 1 /\ e.failat <= Len(w[1]) THEN e.failat ELSE 0
+              want == IF k = 0 THEN w[1] ELSE SubSeq(w[1], 1, k)
+          IN
+          F(e.calls = want, "operator/function applications differ from a direct evaluation of the syntax tree (precedence, associativity, operand or argument order)")
+       \o (IF e.calls # want THEN ""
+           ELSE IF k > 0 THEN F(e.result = <<"error">>, "an operation or function reported an error, yet the evaluation went on or returned a value")
            ELSE IF w[3] THEN F(e.result = w[2], "the result is not the value of the root of the syntax tree")
            ELSE F(e.result = <<"error">>, "evaluation of an operator without a variant operation did not yield an error"))
 
